@@ -844,6 +844,14 @@ func (f *FnVC) specCall(env *SEnv, e *spec.Expr, want types.Type) (Val, error) {
 			}
 			name, _ := f.boxFn(tt)
 			return Val{T: app("un"+name, f.TE.Sort(tt), app("iref", SRef, x.T)), Typ: tt}, nil
+		case "fresh":
+			// fresh(x): the object behind x was allocated during this call (did not exist at entry)
+			x, err := f.evalSpec(env, args[0], nil)
+			if err != nil {
+				return Val{}, err
+			}
+			a0 := f.comp(env.old, "alloc", SInt)
+			return Val{T: Term{fmt.Sprintf("(> %s %s)", f.refOf(x).S, a0.S), SBool}, Typ: boolT}, nil
 		case "ref":
 			// ref(x): the object reference behind a pointer / interface / slice value
 			x, err := f.evalSpec(env, args[0], nil)
